@@ -55,7 +55,7 @@ def rename_case(draw):
             cands = [c['code']]
             if c['gov'] is not None:
                 cands.append(c['gov']['code'])
-                if c['gov']['kind'] == 'treasury_cb':
+                if c['gov']['kind'] in ('treasury_cb', 'gold_cb'):
                     cands.append(c['gov']['cb_code'])
             cands += [h['code'] for h in c['hh']]
             if c['cap'] is not None:
